@@ -34,6 +34,8 @@ func runC03(c *core.Ctx) {
 	c.Rule("TRG", "Trigger reads the right end / order of the container")
 	c.Rule("AVG", "average = running sum / running count")
 	checkAverageTrigger(c)
+	c.Rule("PROTO", "aggregate prototypes hand out fresh state")
+	checkPrototypeFreshState(c)
 	c.Rule("ABS4", "key comparators are ascending")
 	for _, s := range groupBySites {
 		checkNullSkip(c, s.rel, s.fn, ids)
